@@ -268,3 +268,46 @@ Theorem c16_oauth_no_replay_after_overlap : forall (s1 : list nat) (n : nat),
   let w2 := run w1 (repeat 2%nat n) in
   ~ (resp_at w2 1 = Some 200 /\ resp_at w2 2 = Some 200).
 Proof. exact oauth_no_replay_after_overlap. Qed.
+
+(* ------------------------------------------------------------------ readers (round 4) *)
+From KM Require Import Proofs.ConcReader.
+
+(* A load returns the value the store holds at one instant between its call and its return - the instant of its
+   single step - and touches nothing else: store, maps, mutexes, the log of saves and every other request are
+   unchanged; of the loading request only the register (and the program counter) changes. *)
+Theorem c16_load_linearizable : forall w i t u p,
+  nth_error (threads w) i = Some t -> prog t = Load u :: p ->
+  let w' := step w i in
+  store w' = store w /\ mem w' = mem w /\ owner w' = owner w /\ saved w' = saved w /\
+  (forall j, j <> i -> nth_error (threads w') j = nth_error (threads w) j) /\
+  exists t', nth_error (threads w') i = Some t' /\ reg t' = Some (u, get u (store w)) /\ prog t' = p /\
+             resp t' = resp t /\ held t' = held t /\ mreg t' = mreg t /\ alive t' = alive t.
+Proof. exact load_linearizable. Qed.
+
+(* Nothing of a pure reader outlives it: for ANY pool, ANY initial world and ANY schedule, if request r only
+   loads, tests and answers (`reader`), then the store, the maps, the mutex table, the log of saves and the
+   state of every other request (its answer included) are exactly those of the same schedule with r's steps
+   erased.  In particular a reader cannot undo an acknowledged write, and no later request sees anything of it. *)
+Theorem c16_reader_leaves_no_trace : forall w r t s,
+  nth_error (threads w) r = Some t -> reader (prog t) = true -> held t = None ->
+  let w1 := run w s in let w2 := run w (erase r s) in
+  store w1 = store w2 /\ mem w1 = mem w2 /\ owner w1 = owner w2 /\ saved w1 = saved w2 /\
+  forall j, j <> r -> nth_error (threads w1) j = nth_error (threads w2) j.
+Proof. exact reader_leaves_no_trace. Qed.
+
+(* the profile page and the password login (for a user with tokens) are such readers *)
+Theorem c16_view_login_are_readers : forall u,
+  reader (handler (HView u)) = true /\ reader (handler (HLogin u)) = true.
+Proof. exact view_login_readers. Qed.
+
+(* FALSE of a reader that keeps the fetched row where later requests answer from (NOT the code): the reader
+   fetches, a disable of token 1 runs from start to acknowledgement, the reader returns and plants the row it
+   fetched; a later rename of token 2 is acknowledged - and token 1 is enabled again; no sequential order of the
+   three gives this.  Such a request is not a `reader`. *)
+Theorem c16_planting_reader_refuted :
+  exists sched, let w := run plant_w0 sched in
+    map resp (threads w) = [Some 200; Some 200; Some 200] /\
+    get 1 (store w) = Some {| toks := [tk 1 11; {| t_idx := 2; t_enabled := true; t_name := 22 |}]; botp := None; last_totp := 0 |} /\
+    serializable_outcome [1; 2] plant_w0 w = false /\
+    reader (view_planting 1) = false.
+Proof. exact planting_reader_undoes_disable. Qed.
